@@ -24,10 +24,10 @@ CONCRETE = {"unframeable": ["random-unframeable", "random-typed", "random-header
             "forged": ["forged-protected", "bitflip-protected"],
             "future": ["future-epoch"],
             "replay": ["replay"],
-            "cleartext": ["hsfrag", "hs-nextseq", "plain-alert", "plain-ccs", "plain-app", "plain-ack", "typever", "plain-benign"],
+            "cleartext": ["hsfrag", "hs-nextseq", "plain-alert", "plain-ccs", "plain-app", "plain-ack", "typever", "plain-benign", "plain-established"],
             "authmalformed": ["auth-malformed", "cbc-padding"]}
 MUST_SERVE = {"random-unframeable", "random-typed", "random-header", "trunc", "lenfield", "badtype", "forged-protected",
-              "bitflip-protected", "replay", "future-epoch", "plain-benign"}
+              "bitflip-protected", "replay", "future-epoch", "plain-benign", "plain-established"}
 SCENS = {
     "12": dict(ver="12", helloVerify=True, **NOCID),
     "12cbc": dict(ver="12", helloVerify=False, suite="TLS_ECDHE_ECDSA_WITH_AES_256_CBC_SHA", **NOCID),
@@ -131,7 +131,7 @@ def run(chk):
                 if conc == "cbc-padding" and "cbc" not in sn:
                     continue
                 pumps = 30 if at >= 6 else at
-                if conc in ("auth-malformed", "cbc-padding", "bitflip-protected") and pumps < 30:
+                if conc in ("auth-malformed", "cbc-padding", "bitflip-protected", "plain-established") and pumps < 30:
                     continue
                 for tgt in "cs":
                     if chk.quick and sn not in ("12", "13") and rng.random() < 0.6:
